@@ -182,6 +182,14 @@ def run_case(spec, ctx):
                         continue
             if hasattr(elem, "my_qDOF") and kind in ("tpi", "rev") and law == "Maxwell":
                 q[elem.my_qDOF] = rng.normal() * 0.5
+            if kind == "tpi" and not any(hasattr(s_, "B_Theta_C") for s_ in subs) and rng.random() < 0.4:
+                # whole-number coordinates in an INTEGER array (System.q0 has an integer dtype when every body was given
+                # whole-number initial coordinates; point masses only - orientation coordinates are never whole numbers)
+                qi = np.rint(np.asarray(q) * 2).astype(np.int64)
+                if inter.l(t, qi[inter.qDOF]) >= 0.05:
+                    q = qi
+                    det_state["q_dtype"] = "int64"
+                    ctx.cls("state:integer_dtype")
             ex = {**det, **det_state, "t": t, "q": q, "u": u}
             nontrivial |= bool(np.any(u))
             # ---- total potential energy must be evaluable
